@@ -106,7 +106,7 @@ def items_user():
         ("...UserRec", Spread("UserRec")), ("extId", Field("extId")), ("...UserX", Spread("UserX")), ("aliases", Field("aliases")),
         ("roles", Field("roles")), ("dates", Field("dates")), ("type", Field("type")), ("ref", Field("ref")),
         # fields the server may leave out
-        ("name@skip", Field("name", directives=[("skip", "s")])), ("id@include", Field("id", directives=[("include", "s")])),
+        ("name@skip", Field("name", directives=[("skip", "s")])), ("cn:name@skip", Field("name", alias="cn", directives=[("skip", "s")])), ("id@include", Field("id", directives=[("include", "s")])),
         ("friends@include", Field("friends", [Field("name")], directives=[("include", "s")])), ("role@skip", Field("role", directives=[("skip", "s")])),
         ("createdAt", Field("createdAt")), ("in", Field("in")), ("match", Field("match")), ("c:createdAt", Field("createdAt", alias="c")),
     ]
@@ -146,7 +146,7 @@ def items_root():
 
 
 CORE_ITEMS = {  # the reduced alphabets used for k = 3 (and for the quick k = 2 tier)
-    "user": ["name", "id", "n:name", "friend", "__typename", "...UserA", "...UserB", "on User", "...NodeF", "tags"],
+    "user": ["name", "id", "n:name", "friend", "__typename", "...UserA", "...UserB", "on User", "...NodeF", "tags", "cn:name@skip"],
     "node": ["id", "l:label", "on User{name}", "on User{age}", "on Org{name}", "...NodeF", "...UserA",
              "...UserB", "...OrgF"],
     "thing": ["on User{name}", "on User{age}", "on Cat{name}", "...UserA", "...UserB", "...CatF",
